@@ -24,7 +24,7 @@ RULE = ('graphs from vlib.scalegen.gen_graph; non-trivial = graph with >=2 scale
         'kinds + wiring, raw type, level)')
 ASSUMPTIONS = ['int raw data is converted to float64 before Linear/Polynomial/Table evaluation (NumPy promotion)']
 REQUIRED = ['graphs', 'scaled_compared', 'windows_compared', 'lazy_compared', 'purity_checks', 'level:channel', 'level:group', 'level:root',
-            'status_scaled_cases', 'daqmx_graphs', 'precedence_cases', 'no_count_property']
+            'status_scaled_cases', 'daqmx_graphs', 'precedence_cases', 'no_count_property', 'parents:first', 'parents:last', 'parents:later']
 N = {'quick': 10000, 'thorough': 100000}
 
 
@@ -142,6 +142,8 @@ def run_case(case, ctx):
         ctx.count('status_scaled_cases')
     ctx.count('level:' + level)
     n = rng.choice([1, 2, 3, 5])
+    parents = rng.choice(['first', 'first', 'last', 'later'])      # where root/group objects are declared relative to the channel
+    ctx.count('parents:' + parents)
 
     def vf(p, tt, k):
         if dt[0] == 'f':
@@ -154,7 +156,7 @@ def run_case(case, ctx):
         return np.array(vals, dtype=dt)
     segs = M.build_file(rng, [('g', 'c', t, n, cprops), ('g', 'other', 'i16', n, [])], nseg=rng.randint(1, 3), nchunks=(1, 2, 3),
                         endian=rng.choice(['<', '>']), values_fn=vf, root_props=rprops, group_props=gprops,
-                        inter=(rng.random() < 0.3 and M.TYPES[t][2] is not None))
+                        inter=(rng.random() < 0.3 and M.TYPES[t][2] is not None), parents=parents)
     blob = M.encode_file(segs)[0]
     exp = M.Expected(segs)
     raw = exp.flat("/'g'/'c'")
